@@ -34,6 +34,132 @@ func runC18(p *core.Prog, r *core.Report) {
 	c18R4(p, r)
 	c18R5(p, r)
 	c18R6(p, r)
+	lossyKeyRule(p, r, "C18.R7")
+}
+
+// lossyKeyRule: a cache key that stands for a structured value by a rendering of it (a String()
+// method) is only sound when the rendering shows every field the cached computation reads.
+func lossyKeyRule(p *core.Prog, r *core.Report, rule string) {
+	r.Rule(rule, "a rendered key shows what the value depends on: where the key of a process-wide cache of cmd/regsync contains the result of a string method of a module struct type, every field of that type that is read by the functions the same value is handed to (transitively, inside the module) is also read by the method", 0)
+	fieldsRead := func(roots []*ssa.Function, t *types.Named) map[string]bool {
+		out := map[string]bool{}
+		seen := map[*ssa.Function]bool{}
+		for _, root := range roots {
+			for f := range p.ReachSet(root, core.ReachQuery{}) {
+				seen[f] = true
+			}
+			seen[root] = true
+		}
+		for f := range seen {
+			for _, b := range f.Blocks {
+				for _, in := range b.Instrs {
+					switch x := in.(type) {
+					case *ssa.FieldAddr:
+						if core.NamedOf(x.X.Type()) == t {
+							// read when the address is loaded from
+							for _, ref := range *x.Referrers() {
+								if u, ok := ref.(*ssa.UnOp); ok && u.Op == token.MUL {
+									out[core.FieldName(x.X.Type(), x.Field)] = true
+								}
+							}
+						}
+					case *ssa.Field:
+						if core.NamedOf(x.X.Type()) == t {
+							out[core.FieldName(x.X.Type(), x.Field)] = true
+						}
+					}
+				}
+			}
+		}
+		return out
+	}
+	n := 0
+	for _, fn := range pkgFuncs(p, "cmd/regsync") {
+		lab := labeler{}
+		for _, b := range fn.Blocks {
+			for _, in := range b.Instrs {
+				mu, ok := in.(*ssa.MapUpdate)
+				if !ok || globalMap(mu.Map) == nil {
+					continue
+				}
+				// string methods of module struct types in the backward slice of the key
+				type rend struct {
+					t *types.Named
+					m *ssa.Function
+				}
+				var rends []rend
+				seen := map[ssa.Value]bool{}
+				var walk func(v ssa.Value, d int)
+				walk = func(v ssa.Value, d int) {
+					if v == nil || seen[v] || d > 12 {
+						return
+					}
+					seen[v] = true
+					switch x := v.(type) {
+					case *ssa.BinOp:
+						walk(x.X, d+1)
+						walk(x.Y, d+1)
+					case *ssa.Phi:
+						for _, e := range x.Edges {
+							walk(e, d+1)
+						}
+					case *ssa.Convert:
+						walk(x.X, d+1)
+					case *ssa.UnOp:
+						if al, ok := x.X.(*ssa.Alloc); ok {
+							for _, st := range core.ReachingStores(x, al) {
+								walk(st.Val, d+1)
+							}
+						}
+					case *ssa.Call:
+						g := core.CalleeFn(x)
+						if g != nil && p.InModule(g) && g.Signature.Recv() != nil && g.Signature.Results().Len() == 1 && isStringType(g.Signature.Results().At(0).Type()) {
+							if t := core.NamedOf(g.Signature.Recv().Type()); t != nil {
+								if _, isStruct := t.Underlying().(*types.Struct); isStruct {
+									rends = append(rends, rend{t, g})
+									return
+								}
+							}
+						}
+						for _, a := range x.Call.Args {
+							walk(a, d+1)
+						}
+					}
+				}
+				walk(mu.Key, 0)
+				for _, rd := range rends {
+					n++
+					label := lab.next("key rendered by " + rd.t.Obj().Name() + "." + rd.m.Name())
+					inKey := fieldsRead([]*ssa.Function{rd.m}, rd.t)
+					// the functions of the module that fn hands a value of that type to
+					var users []*ssa.Function
+					core.Calls(fn, func(c ssa.CallInstruction) {
+						g := core.CalleeFn(c)
+						if g == nil || !p.InModule(g) || g == rd.m {
+							return
+						}
+						for _, a := range c.Common().Args {
+							if core.NamedOf(a.Type()) == rd.t {
+								users = append(users, g)
+							}
+						}
+					})
+					used := fieldsRead(users, rd.t)
+					var missing []string
+					for f := range used {
+						if !inKey[f] {
+							missing = append(missing, f)
+						}
+					}
+					sort.Strings(missing)
+					r.Check(len(missing) == 0, rule, p.FuncName(fn), label, p.Pos(mu.Pos()), "the key shows the value only through "+rd.m.Name()+"(), which does not look at "+strings.Join(missing, ", ")+"; the computation that is cached reads them: two requests that differ only there get the same entry")
+				}
+			}
+		}
+	}
+	if n == 0 {
+		r.Held(rule, "cmd/regsync", "no rendered key", "-", "no cache key of cmd/regsync contains a string rendering of a structured value")
+	}
 }
 
 func c18R1(p *core.Prog, r *core.Report) {
